@@ -19,6 +19,7 @@ import (
 	"fmt"
 	"io"
 	"math/rand"
+	"runtime/debug"
 	"sort"
 	"strconv"
 	"strings"
@@ -62,6 +63,15 @@ type c02In struct {
 	// (the 10 MB document is generated from these two fields, never stored)
 	Depth int    `json:"depth,omitempty"`
 	Kind  string `json:"kind,omitempty"`
+	// Shape of every Every-th level (Every 0/1 = each level): "" plain;
+	// "sib-before" / "sib-after": an empty <forwarded/> sibling before / after the nesting one;
+	// "sib-both"; "deleg-before": a whole <delegation><forwarded/></delegation> sibling before
+	// the nesting <delegation/>; "stanza-sib": the sibling <forwarded/> holds a small stanza
+	Shape string `json:"shape,omitempty"`
+	Every int    `json:"every,omitempty"`
+	// Bound: do not go to crash depth; parse depth Depth and 2*Depth and require that the
+	// decoder followed the nesting equally far in both (it is bounded, not input-driven)
+	Bound bool `json:"bound,omitempty"`
 	Component bool      `json:"component,omitempty"`
 	Items     []c02Node `json:"items,omitempty"`
 	Closed    bool      `json:"closed,omitempty"` // </stream:stream> at the end
@@ -418,21 +428,114 @@ func c02SeqEq(a, b []Sx) bool {
 
 // c02DeepDoc: header + one stanza with depth nested delegation/forwarded/stanza wrappers + a
 // sentinel presence + end tag
-func c02DeepDoc(kind string, depth int) []byte {
+func c02DeepDoc(kind string, depth int, shape string, every int) []byte {
+	const (
+		dOpen = "<delegation xmlns='urn:xmpp:delegation:1'>"
+		fOpen = "<forwarded xmlns='urn:xmpp:forward:0'>"
+		fSib  = "<forwarded xmlns='urn:xmpp:forward:0'/>"
+	)
+	if every < 1 {
+		every = 1
+	}
+	kOpen := "<" + kind + " xmlns='jabber:client'>"
+	stSib := fOpen + "<" + kind + " xmlns='jabber:client' id='sib'/></forwarded>"
 	var b strings.Builder
-	open := "<delegation xmlns='urn:xmpp:delegation:1'><forwarded xmlns='urn:xmpp:forward:0'><" + kind + " xmlns='jabber:client'>"
-	cl := "</" + kind + "></forwarded></delegation>"
-	b.Grow(len(open)*depth + len(cl)*depth + 400)
+	b.Grow((len(dOpen)+2*len(fOpen)+2*len(kOpen)+60)*depth + 400)
 	b.WriteString(c02Header(false))
 	b.WriteString("<" + kind + " id='top' type='set'>")
+	shaped := func(i int) bool { return shape != "" && i%every == 0 }
 	for i := 0; i < depth; i++ {
-		b.WriteString(open)
+		if shaped(i) && shape == "deleg-before" {
+			b.WriteString(dOpen + fSib + "</delegation>")
+		}
+		b.WriteString(dOpen)
+		if shaped(i) {
+			switch shape {
+			case "sib-before", "sib-both":
+				b.WriteString(fSib)
+			case "stanza-sib":
+				b.WriteString(stSib)
+			}
+		}
+		b.WriteString(fOpen)
+		b.WriteString(kOpen)
 	}
-	for i := 0; i < depth; i++ {
-		b.WriteString(cl)
+	for i := depth - 1; i >= 0; i-- {
+		b.WriteString("</" + kind + "></forwarded>")
+		if shaped(i) && (shape == "sib-after" || shape == "sib-both") {
+			b.WriteString(fSib)
+		}
+		b.WriteString("</delegation>")
 	}
 	b.WriteString("</" + kind + "><presence id='after'/></stream:stream>\n")
 	return []byte(b.String())
+}
+
+// c02Followed: how many levels of forwarded stanzas the decoder followed in the packet it
+// returned (packet -> delegation -> forwarded -> stanza -> ...)
+func c02Followed(p stanza.Packet) int {
+	n := 0
+	for p != nil && n < 10000000 {
+		var d *stanza.Delegation
+		switch v := p.(type) {
+		case *stanza.IQ:
+			d, _ = v.Payload.(*stanza.Delegation)
+		case stanza.Message:
+			for _, e := range v.Extensions {
+				if x, ok := e.(*stanza.Delegation); ok {
+					d = x
+				}
+			}
+		}
+		if d == nil || d.Forwarded == nil || d.Forwarded.Stanza == nil {
+			return n
+		}
+		n++
+		p = d.Forwarded.Stanza
+	}
+	return n
+}
+
+// c02ParseDeep: the packets of a deepfwd document, and how far the first one was followed
+func c02ParseDeep(data []byte, timeout time.Duration) (seq []Sx, followed int, status int) {
+	type res struct {
+		seq      []Sx
+		followed int
+		status   int
+	}
+	ch := make(chan res, 1)
+	go func() {
+		var out []Sx
+		fol := -1
+		defer func() {
+			if p := recover(); p != nil {
+				ch <- res{out, fol, 2}
+			}
+		}()
+		d := xml.NewDecoder(&c02ChunkReader{data: data, next: func(int) int { return 1 << 16 }})
+		if _, err := stanza.InitStream(d); err != nil {
+			ch <- res{out, fol, 0}
+			return
+		}
+		for i := 0; i < 10; i++ {
+			p, err := stanza.NextPacket(d)
+			if err != nil {
+				ch <- res{append(out, L(Z(0), Z(c02ErrClass(d, len(data))))), fol, 0}
+				return
+			}
+			if i == 0 {
+				fol = c02Followed(p)
+			}
+			out = append(out, c02PacketSx(p))
+		}
+		ch <- res{out, fol, 3}
+	}()
+	select {
+	case x := <-ch:
+		return x.seq, x.followed, x.status
+	case <-time.After(timeout):
+		return nil, -1, 1
+	}
 }
 
 // c02SMWant: what the attribute-borne fields of a stream-management element must be, from its
@@ -485,13 +588,27 @@ func c02SMWant(n *c02Node) string {
 func (c02) Run(inp interface{}) Sx {
 	in := inp.(c02In)
 	if in.Mode == "deepfwd" {
-		data := c02DeepDoc(in.Kind, in.Depth)
-		seq, status, _ := c02Parse(&c02ChunkReader{data: data, next: func(int) int { return 1 << 16 }}, len(data), 10, 120*time.Second)
+		// A stack that follows the input shows up long before the default 1 GB limit is
+		// reached: bounded nesting needs a few hundred KB whatever the input, so 128 MB is
+		// ample for every case of this property (the setting is process wide; xvrun runs one
+		// property per process).
+		debug.SetMaxStack(128 << 20)
 		code := map[string]int64{"message": 1, "iq": 3}[in.Kind]
 		want := []Sx{L(Z(code), SBytes("set"), SBytes("top"), SBytes(""), SBytes(""), SBytes("")),
 			L(Z(2), SBytes(""), SBytes("after"), SBytes(""), SBytes(""), SBytes("")), L(Z(15)), L(Z(0), Z(1))}
+		seq, fol, status := c02ParseDeep(c02DeepDoc(in.Kind, in.Depth, in.Shape, in.Every), 120*time.Second)
 		if status != 0 || !c02SeqEq(seq, want) {
 			return L(Z(-5), Zi(status), LS(seq))
+		}
+		if in.Bound {
+			// how far the nesting is followed must not depend on how deep the input goes
+			seq2, fol2, status2 := c02ParseDeep(c02DeepDoc(in.Kind, 2*in.Depth, in.Shape, in.Every), 120*time.Second)
+			if status2 != 0 || !c02SeqEq(seq2, want) {
+				return L(Z(-5), Zi(status2), LS(seq2))
+			}
+			if fol != fol2 || fol >= in.Depth {
+				return L(Z(-7), Zi(fol), Zi(fol2))
+			}
 		}
 		return L(Z(77))
 	}
@@ -762,7 +879,10 @@ func (c02) Oracle(inp interface{}, obs Sx) (string, string) {
 		if len(obs.L) == 1 && obs.L[0].Z == 77 {
 			return "", ""
 		}
-		return fmt.Sprintf("<%s/> holding %d nested <delegation><forwarded><%s> wrappers: not (the stanza, the presence after it, close, end of input): %s", in.Kind, in.Depth, in.Kind, obs.String()), "deep-forwarded"
+		if len(obs.L) == 3 && obs.L[0].Z == -7 {
+			return fmt.Sprintf("<%s/> with forwarded stanzas nested %d and %d deep (shape %q every %d): the decoder followed the nesting %d and %d levels - as far as the input goes, not up to a bound", in.Kind, in.Depth, 2*in.Depth, in.Shape, in.Every, obs.L[1].Z, obs.L[2].Z), "forwarded-nesting-unbounded"
+		}
+		return fmt.Sprintf("<%s/> holding %d nested <delegation><forwarded><%s> wrappers (shape %q): not (the stanza, the presence after it, close, end of input): %s", in.Kind, in.Depth, in.Kind, in.Shape, obs.String()), "deep-forwarded"
 	}
 	if in.Mode == "malformed" {
 		if len(obs.L) == 1 && obs.L[0].Z == 77 {
@@ -1228,7 +1348,19 @@ func (g *c02Gen) delegation() c02Node {
 	if g.r.Intn(4) == 0 {
 		for k := 1 + g.r.Intn(45); k > 0; k-- {
 			w := c02El(c02NSClient, []string{"iq", "message"}[g.r.Intn(2)], d).with("id", "w")
+			if g.r.Intn(4) == 0 {
+				// a whole sibling delegation that finishes before the nesting one starts
+				w.C = append([]c02Node{c02El("urn:xmpp:delegation:1", "delegation", c02El("urn:xmpp:forward:0", "forwarded"))}, w.C...)
+			}
 			d = c02El("urn:xmpp:delegation:1", "delegation", c02El("urn:xmpp:forward:0", "forwarded", w))
+			switch g.r.Intn(5) {
+			case 0: // an empty <forwarded/> sibling that finishes first
+				d.C = append([]c02Node{c02El("urn:xmpp:forward:0", "forwarded")}, d.C...)
+			case 1: // ... or last
+				d.C = append(d.C, c02El("urn:xmpp:forward:0", "forwarded"))
+			case 2: // a sibling holding a small stanza
+				d.C = append([]c02Node{c02El("urn:xmpp:forward:0", "forwarded", c02El(c02NSClient, "iq").with("id", "sib"))}, d.C...)
+			}
 		}
 		hist("child:delegation-nested")
 	}
@@ -1674,8 +1806,22 @@ func (c02) Gen(r *rand.Rand, tier string) []interface{} {
 		hist("deep:" + c02Bucket(d))
 	}
 	// forwarded stanzas nested far beyond any stack: generated from (kind, depth) at run time
-	for _, kd := range []string{"message", "iq"} {
-		out = append(out, c02In{Mode: "deepfwd", Kind: kd, Depth: 1000}, c02In{Mode: "deepfwd", Kind: kd, Depth: 200000})
+	// crash depth (with the 128 MB stack limit set in Run, about 40000 followed levels end the
+	// process): plain nesting and nesting with siblings that finish first; and, cheaper, the
+	// saturation oracle (Bound) on moderately deep inputs for every shape
+	shapes := []string{"", "sib-before", "sib-after", "sib-both", "deleg-before", "stanza-sib"}
+	for i, kd := range []string{"message", "iq"} {
+		out = append(out, c02In{Mode: "deepfwd", Kind: kd, Depth: 1000}, c02In{Mode: "deepfwd", Kind: kd, Depth: 200000},
+			c02In{Mode: "deepfwd", Kind: kd, Depth: 150000, Shape: []string{"sib-before", "deleg-before"}[i], Every: 1})
+		for _, sh := range shapes {
+			for _, ev := range []int{1, 2, 7} {
+				if sh == "" && ev > 1 {
+					continue
+				}
+				out = append(out, c02In{Mode: "deepfwd", Kind: kd, Depth: 100 + r.Intn(400), Shape: sh, Every: ev, Bound: true})
+				hist("deepfwd-bound:" + sh)
+			}
+		}
 		hist("deepfwd:" + kd)
 	}
 	var sample *c02In
@@ -1730,7 +1876,7 @@ func (c02) Decode(raw json.RawMessage) (interface{}, error) {
 func (c02) Key(inp interface{}) (string, bool) {
 	in := inp.(c02In)
 	if in.Mode == "deepfwd" {
-		return fmt.Sprintf("deepfwd:%s:%d", in.Kind, in.Depth), true
+		return fmt.Sprintf("deepfwd:%s:%d:%s:%d:%v", in.Kind, in.Depth, in.Shape, in.Every, in.Bound), true
 	}
 	if in.Mode == "malformed" {
 		return fmt.Sprintf("mal:%s:%d:%d:%d:%d", in.Op, in.Cut, in.Pos%4096, in.Byte, in.RawSeed), in.Op != "random" || in.RawLen > 10
